@@ -16,6 +16,7 @@ mod c19;
 mod cxxharness;
 mod c14;
 mod c07;
+mod c07p;
 mod c15x;
 mod c17x;
 mod backhalf;
